@@ -37,6 +37,7 @@ def run(ctx):
     ctx.rule(additive)
     ctx.rule(blocked_loops)
     ctx.rule(acc_values)
+    ctx.rule(acc_entry)
     ctx.rule(apply_values)
     ctx.rule(slots)
     ctx.rule(appliers)
@@ -153,7 +154,8 @@ _SL = S.call("slice", S.NONE, S.lift(-1), S.NONE)
 _REG = {"count": (S.ZERO, S.lift(-1)), "sums": (S.ZERO, _SL), "squares": (S.ONE, _SL)}
 
 
-def _spec(e, arr, stats_none=None, have=None, norm_var=None, ip=None, f64=None, anyzero=None, rank=None, axis=None, single=None, dims_match=True):
+def _spec(e, arr, stats_none=None, have=None, norm_var=None, ip=None, f64=None, anyzero=None, rank=None, axis=None, single=None, dims_match=True,
+          nonempty=None):
     count = _g(_ST, *_REG["count"])
 
     def strip(x):
@@ -184,6 +186,18 @@ def _spec(e, arr, stats_none=None, have=None, norm_var=None, ip=None, f64=None, 
             if op in ("==", "!=") and single is not None and any(SC.is_call(y, "sum") for y in (a, b)):
                 return S.lift(single == (op == "=="))
             return None
+        if nonempty and rank is not None:
+            # truth values of a non-empty array's shape / size / length
+            if x.op in ("not", "bool") and (S.show(x.args[0]) in (arr + ".shape",) or SC.is_call(x.args[0], "len") or SC.is_call(x.args[0], "numpy.prod")):
+                t = (rank > 0) if S.show(x.args[0]) == arr + ".shape" else True
+                return S.lift(t if x.op == "bool" else not t)
+            if x.op == "cond" and S.show(x.args[0]) == arr + ".shape":
+                return x.args[1] if rank > 0 else x.args[2]
+            if x.op in ("and", "or") and any(S.show(a_) == arr + ".shape" for a_ in x.args):
+                return S.rebuild(x.op, [S.lift(rank > 0) if S.show(a_) == arr + ".shape" else a_ for a_ in x.args])
+            if x.op == "call" and x.args[0] == ".shape" and len(x.args) == 2 and SC.is_call(x.args[1], "numpy.atleast_2d") and rank == 1 \
+                    and S.show(x.args[1].args[1]) == arr:
+                return S.call("tuple", S.ONE, S.call("len", S.sym(arr)))
         if x.op in ("and", "or", "not", "bool", "cond") and have is not None:
             pos = range(len(x.args)) if x.op != "cond" else (0,)
             args = list(x.args)
@@ -271,74 +285,112 @@ def _flat_stored(e):
 _ACC_VOCAB = {"stored", "getitem", "tuple", "slice", "list", ".sum", "numpy.prod", "numpy.zeros", "len", ".astype", "comp", "range"}
 
 
+def _check_acc_one(ctx, R, f, st, arr, label, spec_extra, stats_none, nvar, rank, axis):
+    """st: forward-substituted value of self._stats after the call; scen: [(rank or None for a vector, axis)]"""
+    x = S.sym(arr)
+    what = "%s adds the number of vectors to the count, x to the sums and x^2 to the squares (reduced over all axes but the coefficient axis)" % label
+    if True:
+        if True:
+            vector = rank is None or rank == 1
+            sc = "%s call%s, norm_var=%s" % ("first" if stats_none else "later", "" if rank is None else ", rank %d, axis %d" % (rank, axis), nvar)
+            kw = dict(stats_none=stats_none, rank=rank, axis=axis, norm_var=nvar)
+            kw.update(spec_extra or {})
+            got = _flat_stored(_spec(st, arr, **kw))
+            if vector:
+                ncoef = S.call("len", x)
+                incs = {"count": S.ONE, "sums": x, "squares": S.power(x, S.lift(2))}
+            else:
+                ncoef = S.call("getitem", S.sym(arr + ".shape"), S.lift(axis))
+                other = [k for k in range(rank) if k != axis % rank]
+                ot = S.call("tuple", *[S.lift(k) for k in other])
+                incs = {"count": S.call("numpy.prod", S.call("tuple", *[S.call("getitem", S.sym(arr + ".shape"), S.lift(k)) for k in other])),
+                        "sums": S.call(".sum", x, S.call("kw:axis", ot)),
+                        "squares": S.call(".sum", S.power(x, S.lift(2)), S.call("kw:axis", ot))}
+            base = S.call("numpy.zeros", S.call("tuple", S.lift(2), S.add(ncoef, S.ONE)), S.call("kw:dtype", S.sym("numpy.float64"))) if stats_none else _ST
+            if not (SC.is_call(got, "stored") and (len(got.args) - 2) % 2 == 0):
+                ctx.error(R, "cannot decide [%s] %s: the statistics are not updated by element stores: %s" % (sc, what, S.show(got)[:160]))
+                return False
+            gbase = got.args[1]
+            if _strip_widening(gbase) != _strip_widening(base):
+                calls, _ = SC.vocabulary(gbase)
+                if ({c_ for c_ in calls if not str(c_).startswith("kw:")} - _ACC_VOCAB) or SC.residual_conditions(gbase) or S.has_unknown(gbase):
+                    ctx.error(R, "cannot decide [%s] %s: matrix before the update is %s" % (sc, what, S.show(gbase)[:160]))
+                else:
+                    ctx.bad(R, f, f.node, "[%s] the statistics matrix the update starts from is %s ; documented: %s" % (sc, S.show(gbase)[:200], S.show(base)[:200]),
+                            "the matrix is created as float64 zeros of shape (2, coefficients + 1) on the first call and kept afterwards")
+                return False
+            regions = {}
+            for i_, v in zip(got.args[2::2], got.args[3::2]):
+                regions.setdefault(i_, []).append(v)
+            want_idx = {S.call("tuple", *idx): k for k, idx in _REG.items()}
+            extra = [i_ for i_ in regions if i_ not in want_idx]
+            if extra:
+                ctx.bad(R, f, f.node, "[%s] an unexpected region of the statistics matrix is written: %s" % (sc, S.show(extra[0])[:80]), "only count / sums / squares are updated")
+                return False
+            for idx_e, k in want_idx.items():
+                vs = regions.get(idx_e, [])
+                if len(vs) != 1:
+                    ctx.bad(R, f, f.node, "[%s] the %s region %s is written %d times by %s" % (sc, k, REGIONS[k], len(vs), label), "%s updates the %s region" % (label, k))
+                    return False
+                want = S.add(S.call("getitem", gbase, idx_e), incs[k])
+                if not _verdict(ctx, R, f, f.node, what, sc + ", " + k, vs[0], want, _ACC_VOCAB):
+                    return False
+    return True
+
+
+def _check_acc(ctx, R, f, st, arr, scen, label, spec_extra=None):
+    """every scenario is evaluated; a definite difference in one of them is reported even if another one cannot be decided"""
+    what = "%s adds the number of vectors to the count, x to the sums and x^2 to the squares (reduced over all axes but the coefficient axis)" % label
+    okc, undecided = 0, []
+    for stats_none, nvar in ((True, True), (False, True), (True, False), (False, False)):
+        for rank, axis in scen:
+            ne, nf = len(ctx.errors), len(ctx.findings)
+            if _check_acc_one(ctx, R, f, st, arr, label, spec_extra, stats_none, nvar, rank, axis):
+                okc += 1
+                continue
+            if len(ctx.findings) > nf:
+                # a violation: the "cannot decide" answers of the other scenarios add nothing
+                for e_ in undecided:
+                    if e_ in ctx.errors:
+                        ctx.errors.remove(e_)
+                return False
+            undecided.extend(ctx.errors[ne:])
+            del ctx.errors[ne:]
+    if undecided:
+        ctx.errors.append(undecided[0])
+        return False
+    ctx.ok(R, f.loc(), what, "%d scenarios (first / later call x norm_var%s) evaluated" % (okc, "" if scen == [(None, None)] else " x rank x axis"))
+    return True
+
+
 def acc_values(ctx, R="R-C16-slots"):
     """the statistics matrix after an accumulator, as a value: count += number of vectors, sums += x, squares += x^2"""
     prog = ctx.prog
     c = _std(prog)
     for name in ("_accumulate_vector", "_accumulate_tensor"):
-        f = prog.own_method(c, name)
+        f = c.methods.get(name)
+        if f is None:
+            continue  # the entry point is decided as a whole by acc_entry
         arr = f.params[1]
         ev = SymEval(prog, f).run()
         st = ev.env.get("self._stats")
         ctx.need(st is not None, R, "%s does not assign or update self._stats" % name)
-        x = S.sym(arr)
         scen = [(None, None)] if name.endswith("vector") else [(2, 0), (2, -1), (3, 1), (3, -1), (3, 0)]
-        what = "%s adds the number of vectors to the count, x to the sums and x^2 to the squares (reduced over all axes but the coefficient axis)" % name
-        okc = 0
-        for stats_none, nvar in ((True, True), (False, True), (True, False), (False, False)):
-            for rank, axis in scen:
-                sc = "%s call%s, norm_var=%s" % ("first" if stats_none else "later", "" if rank is None else ", rank %d, axis %d" % (rank, axis), nvar)
-                got = _flat_stored(_spec(st, arr, stats_none=stats_none, rank=rank, axis=axis, norm_var=nvar))
-                if rank is None:
-                    ncoef = S.call("len", x)
-                    incs = {"count": S.ONE, "sums": x, "squares": S.power(x, S.lift(2))}
-                else:
-                    ncoef = S.call("getitem", S.sym(arr + ".shape"), S.lift(axis))
-                    other = [k for k in range(rank) if k != axis % rank]
-                    ot = S.call("tuple", *[S.lift(k) for k in other])
-                    incs = {"count": S.call("numpy.prod", S.call("tuple", *[S.call("getitem", S.sym(arr + ".shape"), S.lift(k)) for k in other])),
-                            "sums": S.call(".sum", x, S.call("kw:axis", ot)),
-                            "squares": S.call(".sum", S.power(x, S.lift(2)), S.call("kw:axis", ot))}
-                base = S.call("numpy.zeros", S.call("tuple", S.lift(2), S.add(ncoef, S.ONE)), S.call("kw:dtype", S.sym("numpy.float64"))) if stats_none else _ST
-                if not (SC.is_call(got, "stored") and (len(got.args) - 2) % 2 == 0):
-                    ctx.error(R, "cannot decide [%s] %s: the statistics are not updated by element stores: %s" % (sc, what, S.show(got)[:160]))
-                    break
-                gbase = got.args[1]
-                if _strip_widening(gbase) != _strip_widening(base):
-                    calls, _ = SC.vocabulary(gbase)
-                    if ({c_ for c_ in calls if not str(c_).startswith("kw:")} - _ACC_VOCAB) or SC.residual_conditions(gbase) or S.has_unknown(gbase):
-                        ctx.error(R, "cannot decide [%s] %s: matrix before the update is %s" % (sc, what, S.show(gbase)[:160]))
-                    else:
-                        ctx.bad(R, f, f.node, "[%s] the statistics matrix the update starts from is %s ; documented: %s" % (sc, S.show(gbase)[:200], S.show(base)[:200]),
-                                "the matrix is created as float64 zeros of shape (2, coefficients + 1) on the first call and kept afterwards")
-                    break
-                regions = {}
-                for i_, v in zip(got.args[2::2], got.args[3::2]):
-                    regions.setdefault(i_, []).append(v)
-                want_idx = {S.call("tuple", *idx): k for k, idx in _REG.items()}
-                extra = [i_ for i_ in regions if i_ not in want_idx]
-                if extra:
-                    ctx.bad(R, f, f.node, "[%s] an unexpected region of the statistics matrix is written: %s" % (sc, S.show(extra[0])[:80]), "only count / sums / squares are updated")
-                    break
-                good = True
-                for idx_e, k in want_idx.items():
-                    vs = regions.get(idx_e, [])
-                    if len(vs) != 1:
-                        ctx.bad(R, f, f.node, "[%s] the %s region %s is written %d times by %s" % (sc, k, REGIONS[k], len(vs), name), "%s updates the %s region" % (name, k))
-                        good = False
-                        break
-                    want = S.add(S.call("getitem", gbase, idx_e), incs[k])
-                    if not _verdict(ctx, R, f, f.node, what, sc + ", " + k, vs[0], want, _ACC_VOCAB):
-                        good = False
-                        break
-                if not good:
-                    break
-                okc += 1
-            else:
-                continue
-            break
-        else:
-            ctx.ok(R, f.loc(), what, "%d scenarios (first / later call%s) evaluated" % (okc, "" if name.endswith("vector") else " x rank x axis"))
+        _check_acc(ctx, R, f, st, arr, scen, name)
+
+
+def acc_entry(ctx, R="R-C16-slots"):
+    """accumulate(features, axis) as a whole, helpers read through: a vector (rank 1, whatever the axis argument) and tensors"""
+    prog = ctx.prog
+    c = _std(prog)
+    f = prog.own_method(c, "accumulate")
+    arr = f.params[1]
+    ev = SymEval(prog, f, inline_self=True).run()
+    st = ev.env.get("self._stats")
+    if st is None:
+        ctx.error(R, "cannot decide accumulate as a whole: the statistics matrix is not updated on the fall-through path")
+        return
+    _check_acc(ctx, R, f, st, arr, [(1, -1), (1, 0), (2, 0), (2, -1), (3, 1)], "accumulate", spec_extra={"nonempty": True})
 
 
 def _dtype_of(e, arr, f64):
